@@ -313,3 +313,40 @@ func Frame(magic uint32, command string, payload []byte) []byte {
 	b = append(b, cs[:4]...)
 	return append(b, payload...)
 }
+
+// ---------------------------------------------------------------------------
+// BIP324 (v2 transport) plaintext contents
+//
+//	message type: 1 byte short id (1..255), or 0x00 followed by the 12 byte
+//	NUL padded ASCII command; then the payload, identical to the v1 payload.
+//
+// V2ShortID is the complete short id table of BIP324 ("v2 Bitcoin P2P message
+// structure"): all 28 assignments, including those of message types this wire
+// package does not implement (BIP152).
+var V2ShortID = map[string]uint8{
+	"addr": 1, "block": 2, "blocktxn": 3, "cmpctblock": 4, "feefilter": 5,
+	"filteradd": 6, "filterclear": 7, "filterload": 8, "getblocks": 9,
+	"getblocktxn": 10, "getdata": 11, "getheaders": 12, "headers": 13,
+	"inv": 14, "mempool": 15, "merkleblock": 16, "notfound": 17, "ping": 18,
+	"pong": 19, "sendcmpct": 20, "tx": 21, "getcfilters": 22, "cfilter": 23,
+	"getcfheaders": 24, "cfheaders": 25, "getcfcheckpt": 26, "cfcheckpt": 27,
+	"addrv2": 28,
+}
+
+// V2Header is the message type prefix of a v2 plaintext.
+func V2Header(command string) []byte {
+	if id, ok := V2ShortID[command]; ok {
+		return []byte{id}
+	}
+	if len(command) > 12 {
+		panic("refwire: command too long")
+	}
+	b := make([]byte, 13)
+	copy(b[1:], command)
+	return b
+}
+
+// FrameV2 is the BIP324 plaintext of one message.
+func FrameV2(command string, payload []byte) []byte {
+	return append(V2Header(command), payload...)
+}
